@@ -13,7 +13,7 @@ use crate::harness::{components_json, finish, Options};
 use crate::json::Json;
 use crate::release::Adm;
 use crate::rng::{hash_str, Fingerprint, Rng};
-use crate::stats::{run_parallel, Acc, Distinct, Report};
+use crate::stats::{run_parallel_then, Acc, Distinct, Report};
 use crate::streams::{first_overfull_window, gen_stream, parse_stream, stream_admissible, Stream};
 
 /// The delta-min vector of a `Curve`, read through its `Debug` output (the only public view).
@@ -534,48 +534,50 @@ pub fn run_c12(opt: &Options) -> i32 {
         nontrivial: &nontrivial,
         streams_per_case: per,
     };
-    let mut acc = run_parallel(cases, opt.jobs, 60, |k, acc, note| c12_item(&sh, k, acc, note));
-    let wall = t0.elapsed().as_secs_f64();
-    let mut cov = Json::obj();
-    cov.set("evaluations", Json::Int(acc.counters.get("runs") as i128));
-    cov.set("distinct_nontrivial", Json::Int(nontrivial.count() as i128));
-    cov.set(
-        "rule",
-        Json::str(
-            "one evaluation = (a) one recorded event trace (raw bursty trace or a stream of a \
-             random model) fed to Curve::from_trace and every window of the trace counted against \
-             the inferred curve; (b) one event stream of a source model's documented process \
-             checked in every window against an object derived from that model \
-             (from_arrival_bound(_until), From<Periodic|Sporadic|ArrivalCurvePrefix>, \
-             ArrivalCurvePrefix::from_arrival_bound_until), far beyond the covered prefix, plus the \
-             dense stream of the derived object against the source inside the prefix and the \
-             pointwise comparison along the scan; (c) one model whose delta_min_iter items are \
-             checked for duality with number_arrivals. distinct = distinct fingerprints of \
-             (case, model, event vector); non-trivial = the history extends beyond the recorded / \
-             covered prefix (a, b) or at least one n >= 2 item was checked (c)",
-        ),
-    );
-    cov.set("distinct_cases", Json::Int(fps.count() as i128));
-    cov.set("simulated_time_ticks", Json::Int(acc.counters.get("sim_ticks") as i128));
-    cov.set(
-        "components",
-        components_json(
-            &["arrival::Curve::{from_trace, from_arrival_bound, from_arrival_bound_until, From<Periodic>, From<Sporadic>, From<&ArrivalCurvePrefix>}, ArrivalCurvePrefix::from_arrival_bound_until, arrival::delta_min_iter, number_arrivals of every source (real)"],
-            &["event sources / trace recorder (stubs, sim/src/streams.rs, gen.rs)"],
-        ),
-    );
-    let out = finish(
-        opt,
-        &mut acc,
-        wall,
-        cov,
-        &[
-            "pointwise domination is demanded only where the source's number_arrivals is exact (Periodic, Sporadic, ExtrapolatingCurve, a Curve inside its own recorded range, an ArrivalCurvePrefix inside its horizon); beyond a non-extrapolated source's own prefix both objects are loose bounds of the same streams (DESIGN.md 3.8 scope decision)",
-            "traces with fewer than two events or whose inferred delta-min vector ends in 0 (unbounded burst) are outside 'realisable' and skipped (counted)",
-        ],
-        &|r: &Report| (r.replay.clone(), r.summary.clone()),
-    );
-    out.exit_code
+    let fin = |mut acc: Acc| -> i32 {
+        let wall = t0.elapsed().as_secs_f64();
+        let mut cov = Json::obj();
+        cov.set("evaluations", Json::Int(acc.counters.get("runs") as i128));
+        cov.set("distinct_nontrivial", Json::Int(nontrivial.count() as i128));
+        cov.set(
+            "rule",
+            Json::str(
+                "one evaluation = (a) one recorded event trace (raw bursty trace or a stream of a \
+                 random model) fed to Curve::from_trace and every window of the trace counted against \
+                 the inferred curve; (b) one event stream of a source model's documented process \
+                 checked in every window against an object derived from that model \
+                 (from_arrival_bound(_until), From<Periodic|Sporadic|ArrivalCurvePrefix>, \
+                 ArrivalCurvePrefix::from_arrival_bound_until), far beyond the covered prefix, plus the \
+                 dense stream of the derived object against the source inside the prefix and the \
+                 pointwise comparison along the scan; (c) one model whose delta_min_iter items are \
+                 checked for duality with number_arrivals. distinct = distinct fingerprints of \
+                 (case, model, event vector); non-trivial = the history extends beyond the recorded / \
+                 covered prefix (a, b) or at least one n >= 2 item was checked (c)",
+            ),
+        );
+        cov.set("distinct_cases", Json::Int(fps.count() as i128));
+        cov.set("simulated_time_ticks", Json::Int(acc.counters.get("sim_ticks") as i128));
+        cov.set(
+            "components",
+            components_json(
+                &["arrival::Curve::{from_trace, from_arrival_bound, from_arrival_bound_until, From<Periodic>, From<Sporadic>, From<&ArrivalCurvePrefix>}, ArrivalCurvePrefix::from_arrival_bound_until, arrival::delta_min_iter, number_arrivals of every source (real)"],
+                &["event sources / trace recorder (stubs, sim/src/streams.rs, gen.rs)"],
+            ),
+        );
+        let out = finish(
+            opt,
+            &mut acc,
+            wall,
+            cov,
+            &[
+                "pointwise domination is demanded only where the source's number_arrivals is exact (Periodic, Sporadic, ExtrapolatingCurve, a Curve inside its own recorded range, an ArrivalCurvePrefix inside its horizon); beyond a non-extrapolated source's own prefix both objects are loose bounds of the same streams (DESIGN.md 3.8 scope decision)",
+                "traces with fewer than two events or whose inferred delta-min vector ends in 0 (unbounded burst) are outside 'realisable' and skipped (counted)",
+            ],
+            &|r: &Report| (r.replay.clone(), r.summary.clone()),
+        );
+        out.exit_code
+    };
+    run_parallel_then(cases, opt.jobs, 60, |k, acc, note| c12_item(&sh, k, acc, note), &fin)
 }
 
 fn get_line(text: &str, head: &str) -> Option<String> {
